@@ -14,6 +14,7 @@ import TzVerif.Model.Rule
 import TzVerif.Spec.Rule
 import TzVerif.Proofs.RuleEval
 import TzVerif.Proofs.IanaRules
+import TzVerif.Proofs.SrcEqRule
 
 namespace TzVerif.C04
 open TzVerif.Model TzVerif.Proofs
@@ -110,5 +111,26 @@ example :
     let a : AlternateTime := { std, dst, dstStart := .mwd 3 5 0, dstStartTime := 7200, dstEnd := .mwd 10 5 0, dstEndTime := 10800 }
     a.findLocalTimeType 1718971200 = .ok dst ∧ Spec.startInstant a 2024 ≤ 1718971200 ∧ 1718971200 < Spec.endInstant a 2024 := by
   decide +kernel
+
+/-! ### The same about the source text
+`TzVerif.Src.*` is the Rust source translated to Lean on every run (tools/rs2lean.py, DESIGN §13); the
+equalities below tie every theorem of this file, which is about the model, to the code as it is now. -/
+
+theorem translated_source_is_the_model :
+    (∀ (a : AlternateTime) u, Src.AlternateTime.find_local_time_type a u = a.findLocalTimeType u) ∧
+    (∀ (r : TransitionRule) u, Src.TransitionRule.find_local_time_type r u = r.findLocalTimeType u) ∧
+    (∀ (d : RuleDay) y t, Src.RuleDay.unix_time d y t = d.unixTime y t) ∧
+    (∀ (d : RuleDay) y, Src.RuleDay.transition_date d y = d.transitionDate y) :=
+  ⟨SrcEq.alternate_find_local_time_type_eq, SrcEq.transition_rule_find_local_time_type_eq, SrcEq.rule_day_unix_time_eq,
+   SrcEq.rule_day_transition_date_eq⟩
+
+theorem day_notations_src (d : RuleDay) (hv : ValidRuleDay d) (y t : Int) :
+    Src.RuleDay.unix_time d y t = 86400 * Spec.ruleDayNumber d y + t := by
+  rw [SrcEq.rule_day_unix_time_eq]; exact day_notations d hv y t
+
+theorem evaluated_correctly_partial_src (a : AlternateTime) (hs : RuleShape a) (hi : Spec.Interleaves a) (ht : Spec.TieFree a)
+    (u : Int) (t : LocalTimeType) (h : Src.AlternateTime.find_local_time_type a u = .ok t) :
+    (Spec.IsDst a u ∧ t = a.dst) ∨ (¬ Spec.IsDst a u ∧ t = a.std) :=
+  evaluated_correctly_partial a hs hi ht u t (SrcEq.alternate_find_local_time_type_eq a u ▸ h)
 
 end TzVerif.C04
